@@ -1129,7 +1129,8 @@ func (s *Solver) getModel(vars []*Term) Model {
 		if next() != ")" {
 			return nil
 		}
-		m[name] = k
+		// solvers differ in whether they print the |quotes| of a symbol
+		m["|"+strings.Trim(name, "|")+"|"] = k
 	}
 	return m
 }
